@@ -27,7 +27,8 @@ THEOREMS = {
             "npBinarize_append", "radius_incremental_eq_batch", "knn_incremental_eq_batch", "radius_chunked_eq_batch",
             "knn_chunked_eq_batch", "lshInv_fit_any", "lshInv_partialFit_any", "lshSame_buckets", "lshSame_selectIdx",
             "lshSame_nhoodRow", "lshSame_impPredict", "lsh_incremental_eq_batch", "lsh_incremental_queries", "lsh_chunked_eq_batch",
-            "clusters_partialFit_is_fit", "clusters_incremental_eq_batch", "clusters_init_flags"],
+            "clusters_partialFit_is_fit", "clusters_incremental_eq_batch", "clusters_init_flags", "clusters_fit_keeps",
+            "clusters_chunked_eq_batch"],
     "C07": ["fit_discards", "resetFor_congr", "sameConfig_fresh", "fit_after_history_eq_fresh",
             "fit_then_predictExp_congr", "fit_norm_congr", "npBinarize_congr", "impFit_none_congr", "impFit_neighbors_congr",
             "impFit_lsh_congr", "impFit_tree_congr", "impFit_clusters_congr"],
